@@ -143,6 +143,10 @@ func c40Judge(s *orcStep, res *run.Result, p c40Pred) {
 		res.Inc("skipped_board_emptied_and_printed_without_map")
 		return
 	}
+	if s.Pre.hasGlob() {
+		res.Inc("skipped_source_has_glob_keys")
+		return
+	}
 	k := orcParseKey(s.Call.Key)
 	if k.Err != nil || k.Odd != "" {
 		res.Inc("skipped_key_outside_domain")
